@@ -60,6 +60,8 @@ func unsetField(subject, key, sep string) string {
 		return subject[loc[1]:]
 	case string(subject[loc[1]-1]) == sep: // found in the middle drop trailing separator
 		return subject[:loc[0]] + subject[loc[1]-1:]
+	case loc[1] < len(subject): // found in the middle followed by whitespace, keep what follows
+		return subject[:loc[0]] + sep + subject[loc[1]:]
 	}
 	// found at the end drop leading separator
 	return subject[:loc[0]]
